@@ -68,3 +68,22 @@ pub(crate) fn typed_swap<T>(a: &mut T, b: &mut T) {
         std::ptr::write(b, t);
     }
 }
+
+/// Wrapper for every mutable static of the harnesses. Kani 0.68 gives a
+/// `static mut` whose initial bytes equal those of some constant allocation
+/// (e.g. `static mut N: usize = 0` and the constant `Ok(())` of
+/// `io::Result<()>`, or a `false` flag and an `Ordering::Relaxed` constant)
+/// the SAME storage: a write to the static then changes the constant
+/// (measured: `N = 3; q(Ok(0))` with `fn q(x) { x?; Ok(()) }` returned the
+/// bits 3). The magic makes the initial bytes unlike any constant.
+#[repr(C)]
+pub(crate) struct V<T> {
+    pub(crate) v: T,
+    magic: u64,
+}
+
+impl<T> V<T> {
+    pub(crate) const fn new(v: T) -> V<T> {
+        V { v, magic: 0x5EED_A10C_0FFE_E5A1 }
+    }
+}
